@@ -17,6 +17,9 @@
  *
  *   <init>   sse | avx2 | avx512     <flags>  0..3 (bit 0 IMB_FLAG_SHANI_OFF, bit 1 IMB_FLAG_GFNI_OFF)
  *   script   same format as k7_leak.c: <id> <algo> <dir> <len> <off> <keyhex> <ivhex> <msgseed>
+ *            or, for the direct (non-job) entry points of KASUMI / SNOW3G (--batch 1):
+ *            <id> direct:<name> <n> <len0,len1,..> <off> <key0[,key1,..]> <ivhex> <msgseed>
+ *            (the marked region then holds the one IMB_<NAME>(mgr, ...) call)
  *   --image  an image (shared object or the executable itself: substring "SELF") whose
  *            instructions are decoded; the first one is the library under test
  *
@@ -174,6 +177,13 @@ child_main(const char *variant, const char *script, const int batch)
         }
         add_region("slots", -1, slots, sizeof(slots));
         add_region("tmpl", -1, tmpl, sizeof(tmpl));
+        /* direct (non-job) entry points: argument block and arenas, allocated once */
+        direct_alloc();
+        add_region("dcall", -1, &dcall, sizeof(dcall));
+        add_region("dsrc", -1, dsrc, (size_t) DMAX * DSTRIDE + 64);
+        add_region("ddst", -1, ddst, (size_t) DMAX * DSTRIDE + 64);
+        add_region("div", -1, div_, (size_t) DMAX * 64 + 64);
+        add_region("ds3gks", -1, ds3g, (size_t) DMAX * DKSTRIDE + 64);
 
         printf("VARIANT arch=%u type=%u features=%llx\n", (unsigned) mgr->used_arch,
                (unsigned) mgr->used_arch_type, (unsigned long long) mgr->features);
@@ -209,6 +219,12 @@ child_main(const char *variant, const char *script, const int batch)
                 for (int b = 0; b < n; b++) {
                         if (!slots[b].ok)
                                 continue;
+                        if (slots[b].direct) { /* api=direct:<name>: the one processing call */
+                                run_direct(mgr, &slots[b]);
+                                if (slots[b].status != (int) IMB_STATUS_COMPLETED && err_job == 0)
+                                        err_job = slots[b].status - 1000;
+                                continue;
+                        }
                         IMB_JOB *job = IMB_GET_NEXT_JOB(mgr);
 
                         *job = tmpl[b];
@@ -230,14 +246,18 @@ child_main(const char *variant, const char *script, const int batch)
                 group++;
 
                 for (int b = 0; b < n; b++) {
-                        const slot_t *s = &slots[b];
+                        slot_t *s = &slots[b];
 
                         if (!s->ok) {
                                 printf("CASE id=%s status=-1 errno=-3 out=-\n", s->id);
                                 continue;
                         }
-                        printf("CASE id=%s status=%d errno=%d out=", s->id, s->done ? s->status : -2,
-                               err_job);
+                        finish_direct(mgr, s);
+                        printf("CASE id=%s status=%d errno=%d", s->id, s->done ? s->status : -2, err_job);
+                        if (s->direct)
+                                printf(" api=direct:%s fn=%llx", direct_names[s->direct - 1],
+                                       direct_fn_off(s));
+                        printf(" out=");
                         if (s->out_len == 0)
                                 printf("-");
                         for (size_t i = 0; i < s->out_len; i++)
